@@ -117,8 +117,21 @@ def norm_slice(ex, n, lo, hi):
         lo2, hi2, _ = slice(lo, hi).indices(n)
         return lo2, max(hi2 - lo2, 0)
     zn, zl, zh = zi(n), zi(lo), zi(hi)
-    lo2 = z3.If(zl < 0, z3.If(zl + zn < 0, 0, zl + zn), z3.If(zl > zn, zn, zl))
-    hi2 = z3.If(zh < 0, z3.If(zh + zn < 0, 0, zh + zn), z3.If(zh > zn, zn, zh))
+
+    def clamp(v, zv):
+        if isinstance(v, int) and v == 0:
+            return z3.IntVal(0)
+        if isinstance(v, int) and v > 0:
+            if ex.check(zv > zn) == z3.unsat:
+                return zv
+            return z3.If(zv > zn, zn, zv)
+        if isinstance(v, int) and v < 0:
+            return z3.If(zv + zn < 0, 0, zv + zn)
+        if v is n:
+            return zn
+        return z3.If(zv < 0, z3.If(zv + zn < 0, 0, zv + zn), z3.If(zv > zn, zn, zv))
+    lo2 = clamp(lo, zl)
+    hi2 = clamp(hi, zh)
     lo2 = mk_int(lo2)
     ln = mk_int(z3.If(zi(mk_int(hi2)) - zi(lo2) > 0, zi(mk_int(hi2)) - zi(lo2), 0))
     return lo2, ln
@@ -171,7 +184,24 @@ def bytes_slice(ex, b, sl, mutable=None):
     r.pending = pend
     if b.origin is not None:
         r.origin = (b.origin[0], mk_int(zi(b.origin[1]) + zi(lo)), b.origin[2])
+    elif b.parts is not None and isinstance(lo, int) and sl.stop is None:
+        acc = 0
+        for k, part in enumerate(b.parts):
+            if acc == lo:
+                r.parts = b.parts[k:]
+                break
+            if not isinstance(part.length, int):
+                break
+            acc += part.length
     return r
+
+
+def teq(x, y):
+    """equality of two byte terms (ints, Int terms or bit-vector terms)"""
+    if isinstance(x, z3.BitVecRef) or isinstance(y, z3.BitVecRef):
+        w = (x if isinstance(x, z3.BitVecRef) else y).size()
+        return bv_of(mk_int(x), w) == bv_of(mk_int(y), w)
+    return _z(x) == _z(y)
 
 
 def bytes_eq(ex, a, b):
@@ -182,11 +212,11 @@ def bytes_eq(ex, a, b):
     if isinstance(la, int) and isinstance(lb, int):
         if la != lb:
             return False
-        cs = [_z(a.at(i)) == _z(b.at(i)) for i in range(la)]
+        cs = [teq(a.at(i), b.at(i)) for i in range(la)]
         return mk_bool(z3.And(cs)) if cs else True
     n = la if isinstance(la, int) else (lb if isinstance(lb, int) else None)
     if n is not None:
-        cs = [zlen(a) == zlen(b)] + [_z(a.at(i)) == _z(b.at(i)) for i in range(n)]
+        cs = [zlen(a) == zlen(b)] + [teq(a.at(i), b.at(i)) for i in range(n)]
         return mk_bool(z3.And(cs))
     # both lengths symbolic
     pol = ex.ghost.get('polarity')
@@ -215,6 +245,9 @@ def veq(ex, a, b):
             return a == b
         if isinstance(a, (bool, SBool)) and isinstance(b, (bool, SBool)):
             return mk_bool(zbool(a) == zbool(b))
+        if is_bv(a) or is_bv(b):
+            w = (a.t if is_bv(a) else b.t).size()
+            return mk_bool(bv_of(a, w) == bv_of(b, w))
         return mk_bool(zi(a) == zi(b))
     if isinstance(a, SBytes) and isinstance(b, SBytes):
         return bytes_eq(ex, a, b)
@@ -569,7 +602,37 @@ def tname(v):
     return type(v).__name__
 
 
+def bv_binop(ex, op, l, r):
+    """machine-integer mode (unsigned, fixed width): used for bit-level code
+    whose values provably stay inside the width"""
+    w = (l.t if is_bv(l) else r.t).size()
+    a, b = bv_of(l, w), bv_of(r, w)
+    if isinstance(op, ast.Add):
+        return mk_int(a + b)
+    if isinstance(op, ast.Sub):
+        return mk_int(a - b)
+    if isinstance(op, ast.Mult):
+        return mk_int(a * b)
+    if isinstance(op, ast.FloorDiv):
+        return mk_int(z3.UDiv(a, b))
+    if isinstance(op, ast.Mod):
+        return mk_int(z3.URem(a, b))
+    if isinstance(op, ast.LShift):
+        return mk_int(a << b)
+    if isinstance(op, ast.RShift):
+        return mk_int(z3.LShR(a, b))
+    if isinstance(op, ast.BitAnd):
+        return mk_int(a & b)
+    if isinstance(op, ast.BitOr):
+        return mk_int(a | b)
+    if isinstance(op, ast.BitXor):
+        return mk_int(a ^ b)
+    raise Unsupported('bit-vector operator %s' % op.__class__.__name__)
+
+
 def num_binop(ex, op, l, r):
+    if is_bv(l) or is_bv(r):
+        return bv_binop(ex, op, l, r)
     conc = not is_symbolic(l) and not is_symbolic(r)
     if conc:
         try:
@@ -739,6 +802,11 @@ def compare(ex, op, l, r):
     if is_num(l) and is_num(r):
         if not is_symbolic(l) and not is_symbolic(r):
             return {ast.Lt: l < r, ast.LtE: l <= r, ast.Gt: l > r, ast.GtE: l >= r}[type(op)]
+        if is_bv(l) or is_bv(r):
+            w = (l.t if is_bv(l) else r.t).size()
+            a, b = bv_of(l, w), bv_of(r, w)
+            return mk_bool({ast.Lt: z3.ULT(a, b), ast.LtE: z3.ULE(a, b), ast.Gt: z3.UGT(a, b),
+                            ast.GtE: z3.UGE(a, b)}[type(op)])
         if is_real(l) or is_real(r):
             a, b = to_real(l), to_real(r)
         else:
@@ -785,6 +853,8 @@ def contains(ex, cont, x):
             raise Unsupported('in on list with symbolic segment')
         return vor(ex, [veq(ex, x, y) for y in cont.items])
     if isinstance(cont, SDict):
+        if isinstance(x, (SInt, SBool)) and not cont.sym:
+            return vor(ex, [veq(ex, x, ok) for (ok, _) in cont.d.values()])
         found, _ = dict_lookup(ex, cont, x)
         return found
     if isinstance(cont, SSet):
